@@ -1432,7 +1432,10 @@ func (ev *Event) CreatedAtTime() time.Time {
 	if ev == nil {
 		return time.Unix(0, 0)
 	}
-	return time.Unix(ev.CreatedAt, 0)
+	// time.Unix wraps around beyond what time.Time can hold: a created_at
+	// near math.MaxInt64 would turn into a time in the distant past.
+	const maxUnixSec = 1<<63 - 1 - 62135596800 // 62135596800 s from year 1 to 1970
+	return time.Unix(min(ev.CreatedAt, maxUnixSec), 0)
 }
 
 func (ev *Event) Address() string {
